@@ -572,11 +572,12 @@ func runC11(w *World, r *Report) {
 // streamAliveRule: the stream's goroutines are the connection. One that panics takes the process with it
 // (no recover in the stream), and every message submitted or received afterwards is lost. Two structural
 // conditions of staying alive are decided for package util:
-//   nil result — a value obtained together with an error (the parser's message, an encoder's bytes) is not
-//     used as a receiver, indexed or dereferenced on a path where that error may be set (nilResultRule);
-//   helper bounds — every function of the package that takes a byte slice indexes and slices it in range
-//     for every slice it may be given (the bounds engine of C08 on arbitrary input): what reaches these
-//     helpers is an encoding or a frame of any length, including an empty one after a failed encode.
+//
+//	nil result — a value obtained together with an error (the parser's message, an encoder's bytes) is not
+//	  used as a receiver, indexed or dereferenced on a path where that error may be set (nilResultRule);
+//	helper bounds — every function of the package that takes a byte slice indexes and slices it in range
+//	  for every slice it may be given (the bounds engine of C08 on arbitrary input): what reaches these
+//	  helpers is an encoding or a frame of any length, including an empty one after a failed encode.
 func streamAliveRule(w *World, r *Report, rule string) {
 	inUtil := func(fi *FuncInfo) bool { return fi.Pkg.Types.Name() == "util" }
 	nilResultRule(w, r, rule, inUtil)
